@@ -63,7 +63,150 @@ def _layout(files):
     return stride, lens, [int(b) for b in bounds], int(sum(lens))
 
 
+def generate_huge(rng) -> dict:
+    """Streams of several GiB (sparse on the simulated disk): offsets beyond 2^31 and 2^32 are where a 32-bit offset,
+    a float32 position or an `int` C long gives out - no 64-sample file can show that."""
+    nchans = rng.choice([1, 2, 4, 8])
+    G = 1 << 30
+    sizes = [rng.choice([2 * G - 4096, 2 * G + 4096, 2 * G, G + G // 4, 3 * G // 4, 4 * G + 8, G // 2, 3 * G])
+             for _ in range(rng.choice([2, 2, 3]))]
+    if sum(sizes[:-1]) < 2 * G:  # some file must START beyond 2 GiB
+        sizes[0] = 2 * G + rng.choice([0, 8, 4096])
+    nsamps = [max(1, sz // nchans) for sz in sizes]
+    lens = [n * nchans for n in nsamps]
+    bounds = list(np.cumsum(lens))
+    total = int(bounds[-1])
+    hot = sorted({0, total} | {int(b) for b in bounds} | {h for h in (1 << 31, 1 << 32, 3 << 31) if h < total})
+    windows = [[h - 192, h + 192] for h in hot]
+    files = {"nbits": 8, "nchans": nchans, "nsamps": nsamps, "pad": filgen.gen_pads(rng, len(nsamps)), "windows": windows,
+             "vseed": rng.randrange(1 << 16)}
+    ops = []
+    for _ in range(rng.randint(2, 10)):
+        k = rng.random()
+        h = rng.choice(hot)
+        if k < 0.3:
+            ops.append({"op": "seek0", "off": h + rng.randint(-160, 160)})
+        elif k < 0.4:
+            ops.append({"op": "seek1", "off": rng.choice([rng.randint(-150, 150), rng.choice(hot) - rng.choice(hot)])})
+        elif k < 0.6:
+            ops.append({"op": "cread", "n": rng.randint(0, 160)})
+        elif k < 0.8:
+            ops.append({"op": "creadinto", "n": rng.randint(0, 160)})
+        else:
+            ops.append({"op": "read_block", "start": h // nchans + rng.randint(-40, 40), "nsamps": rng.randint(1, max(1, 96 // nchans))})
+    return {"kind": "huge", "files": files, "ops": ops, "faults": []}
+
+
+def execute_huge(sc, ctx) -> None:
+    files = sc["files"]
+    ss = filgen.SparseSet(ctx.root, files)
+    total, stride, N = ss.total, ss.stride, ss.nsamples
+    ctx.probe("multi-gigabyte-sparse-stream")
+    ctx.sig += ["huge", f"files{len(ss.paths)}"]
+    with SimDisk(ctx, [], budget_per_op=8 * (len(ss.paths) + 2) + 16) as sim:
+        reader = open_reader("C02", ss.paths, allow_chdir=False)
+        fr = reader._file
+        if reader.header.nsamples != N:
+            raise Violation("C02/open/nsamples", f"{reader.header.nsamples} != {N}")
+        sim.begin_op(-1)
+        fr.seek(0, 0)
+        pos = 0
+        for i, op in enumerate(sc["ops"]):
+            sim.begin_op(i)
+            kind = op["op"]
+            info = {"api": kind, **op, "total": total, "pos": pos, "bounds": ss.bounds, "huge": True}
+            raised = result = None
+            try:
+                if kind == "seek0":
+                    fr.seek(nint(op["off"]), 0)
+                elif kind == "seek1":
+                    fr.seek(nint(op["off"]), 1)
+                elif kind == "cread":
+                    result = fr.cread(nint(op["n"]))
+                elif kind == "creadinto":
+                    rb = bytearray([POISON]) * op["n"]
+                    result = (fr.creadinto(rb, None), rb)
+                else:
+                    result = reader.read_block(nint(op["start"]), nint(op["nsamps"]))
+            except SimLivelock as e:
+                raise Violation(f"C02/{kind}/livelock", str(e), info) from None
+            except Exception as e:  # noqa: BLE001
+                raised = e
+            if kind in ("seek0", "seek1"):
+                target = op["off"] if kind == "seek0" else pos + op["off"]
+                if 0 <= target < total:
+                    if raised is not None:
+                        raise Violation(f"C02/{kind}/in-range-seek-raised", repr(raised), info)
+                    pos = target
+                elif raised is None:
+                    raised = LookupError("out-of-range seek accepted")
+            elif kind == "cread":
+                n = op["n"]
+                past = pos + n > total
+                if raised is None:
+                    if past:
+                        raise Violation("C02/cread/read-past-end-returned/nofault", f"len={len(result)}", info)
+                    if np.asarray(result, dtype=np.uint8).tobytes() != ss.model(pos, n):
+                        raise Violation("C02/cread/wrong-data/nofault", f"{n} bytes at stream offset {pos}", info)
+                    pos += n
+                    if n:
+                        ctx.probe("compared-read")
+                elif not past:
+                    raise Violation("C02/cread/in-range-read-raised", repr(raised), info)
+            elif kind == "creadinto":
+                n = op["n"]
+                if raised is not None:
+                    raise Violation("C02/creadinto/raised", repr(raised), info)
+                got, rb = result
+                exp_n = max(0, min(n, total - pos))
+                if got != exp_n:
+                    raise Violation("C02/creadinto/byte-count/nofault", f"{got} != {exp_n}", info)
+                if bytes(rb[:got]) != ss.model(pos, got):
+                    raise Violation("C02/creadinto/wrong-bytes/nofault", f"{got} bytes at stream offset {pos}", info)
+                if any(x != POISON for x in rb[got:]):
+                    raise Violation("C02/creadinto/tail-clobbered/nofault", "", info)
+                pos += got
+                if got:
+                    ctx.probe("compared-read")
+            else:
+                st, ns = op["start"], op["nsamps"]
+                if not (st >= 0 and st + ns <= N):
+                    if not isinstance(raised, ValueError):
+                        raise Violation("C02/read_block/out-of-range-not-ValueError", repr(raised), info)
+                elif raised is not None:
+                    raise Violation("C02/read_block/in-range-raised", repr(raised), info)
+                else:
+                    exp = np.frombuffer(ss.model(st * stride, ns * stride), dtype=np.uint8).reshape(ns, stride).T.astype(np.float32)
+                    data = np.asarray(result.data)
+                    if data.shape != exp.shape or not np.array_equal(data.astype(np.float32), exp):
+                        raise Violation("C02/read_block/wrong-data/nofault", f"samples [{st},{st + ns}) of a {N}-sample stream", info)
+                    pos = (st + ns) * stride
+                    ctx.probe("compared-read")
+            ctx.log("op", i, kind, "ok" if raised is None else type(raised).__name__, pos)
+            if pos >= (1 << 31):
+                ctx.probe("position-beyond-2^31")
+            if pos >= (1 << 32):
+                ctx.probe("position-beyond-2^32")
+            if raised is None:
+                rp = fr.cur_data_pos_stream
+                if rp != pos:
+                    raise Violation(f"C02/{kind}/position/nofault", f"reader {rp} != model {pos}", info)
+            else:
+                sim.begin_op(i)
+                target = pos if pos < total else 0
+                try:
+                    fr.seek(target, 0)
+                except Exception as e:  # noqa: BLE001
+                    raise Violation(f"C02/resync/seek-raised-after-{kind}", repr(e), info) from None
+                pos = target
+                if fr.cur_data_pos_stream != pos:
+                    raise Violation(f"C02/resync/position-after-{kind}", f"{fr.cur_data_pos_stream} != {pos}", info)
+        reader._file.close()
+
+
 def generate(rng, tier) -> dict:
+    if rng.random() < 0.03:
+        return generate_huge(rng)
     files = gen_big_files(rng) if rng.random() < (0.03 if tier == "quick" else 0.1) else gen_files(rng, max_total=64 if tier == "quick" else 192)
     stride, lens, bounds, total = _layout(files)
     item = {16: 2, 32: 4}.get(files["nbits"], 1)
@@ -117,6 +260,19 @@ def generate(rng, tier) -> dict:
 
 def fixup(sc):
     f = sc["files"]
+    if sc.get("kind") == "huge":
+        if not sc["ops"] or not f["nsamps"]:
+            return None
+        f["nsamps"] = [max(1, int(n)) for n in f["nsamps"]][:3]
+        f["pad"] = (list(f.get("pad") or []) + [0, 0, 0])[: len(f["nsamps"])]
+        f["windows"] = [[int(a), min(int(b), int(a) + 1024)] for a, b in f.get("windows", []) if int(b) > int(a)][:16]
+        for o in sc["ops"]:
+            if "n" in o:
+                o["n"] = max(0, min(int(o["n"]), 4096))
+            if "nsamps" in o:
+                o["nsamps"] = max(1, min(int(o["nsamps"]), 4096))
+        sc["faults"] = []
+        return sc
     if f["nbits"] not in (1, 2, 4, 8, 16, 32) or f["nchans"] < 1 or (f["nchans"] * f["nbits"]) % 8:
         return None
     f["nsamps"] = [n for n in f["nsamps"] if n >= 1][:3]
@@ -169,6 +325,8 @@ def _crc(b) -> int:
 def execute(sc, ctx) -> None:
     from sigpyproc.readers import FilReader
 
+    if sc.get("kind") == "huge":
+        return execute_huge(sc, ctx)
     files = sc["files"]
     fs = filgen.write_fileset(ctx.root, files)
     stride, lens, bounds, total = _layout(files)
